@@ -42,7 +42,7 @@ def run_checks(wt, checks, tier):
     return res
 
 
-def keep(agent_wt, name, checks, tier):
+def keep(agent_wt, name, checks, tier, suffix=''):
     meta_src = json.load(open(os.path.join(agent_wt, 'seed', 'meta.json')))
     pid = meta_src['property']
     seed_meta = next(s for s in meta_src['seeds'] if s['name'] == name)
@@ -58,7 +58,7 @@ def keep(agent_wt, name, checks, tier):
         t = sh(os.path.join(HERE, 'tools/repo_tests.sh') + ' ' + wt)
         mm = re.search(r'(\d+) failed, (\d+) passed', t.stdout)
         d1 = sh(env)
-        rec = {'property': pid, 'seed': name, 'summary': seed_meta.get('summary'), 'needs_to_manifest': seed_meta.get('needs_to_manifest'), 'files': seed_meta.get('files'),
+        rec = {'property': pid, 'seed': name + suffix, 'summary': seed_meta.get('summary'), 'needs_to_manifest': seed_meta.get('needs_to_manifest'), 'files': seed_meta.get('files'),
                'confirmed': {'demo_clean_exit': d0.returncode, 'patch_applies': ap.returncode == 0, 'repo_tests_with_patch': '%s passed / %s failed' % (mm.group(2), mm.group(1)) if mm else t.stdout[-200:],
                              'demo_patched_exit': d1.returncode, 'demo_patched_output': d1.stdout[-400:]},
                'how_run': 'tools/seed.py keep: fresh worktree of /repo HEAD under /tmp, demo, git apply, tools/repo_tests.sh, demo, VERIF_REPO=<worktree> ./check <ID> %s' % tier}
@@ -67,7 +67,7 @@ def keep(agent_wt, name, checks, tier):
         if ok:
             rec['checks'] = run_checks(wt, checks or [pid], tier)
             rec['caught_by'] = [c for c, v in rec['checks'].items() if v['exit'] == 1]
-        dst = os.path.join(HERE, 'seeded', '%s-%s' % (pid, name))
+        dst = os.path.join(HERE, 'seeded', '%s-%s%s' % (pid, name, suffix))
         if ok:
             os.makedirs(dst, exist_ok=True)
             shutil.copy(patch, dst + '/patch.diff'); shutil.copy(demo, dst + '/demo.py')
@@ -106,6 +106,6 @@ if __name__ == '__main__':
     tier = a[a.index('--tier') + 1] if '--tier' in a else 'quick'
     if a[0] == 'keep':
         checks = a[a.index('--checks') + 1].split(',') if '--checks' in a else None
-        keep(a[1], a[2], checks, tier)
+        keep(a[1], a[2], checks, tier, a[a.index('--suffix') + 1] if '--suffix' in a else '')
     elif a[0] == 'rerun':
         rerun([x for x in a[1:] if not x.startswith('--') and x not in ('quick', 'thorough')], tier)
